@@ -70,6 +70,8 @@ def gen_canonical(rng, maxv):
     for l in m["lods"]:
         for me in l:
             me["streams"] = canon_stream(rng, me["elements"], me["strides"], me["nstreams"], me["vcount"], nice_position=me.get("shape_mesh"))
+            if me["nstreams"] < 3 and rng.random() < 0.3:
+                me["unused_stride"] = rng.choice([1, 4, 20, 255])      # a stride slot beyond the stream count is not part of the layout
     return m
 
 
@@ -341,7 +343,16 @@ def history_case(ctx, rng, P):
                     subspec.append("%d,%d" % (cnt, so)); so += cnt
                 vf = ctx.write("v%d.bin" % pi, records_for(me))
                 xf = ctx.write("i%d.bin" % pi, b"".join(struct.pack("<H", i) for i in me["indices"]))
-                cmds.append((li, pi, vf, xf, ";".join(subspec)))
+                # where the SubMesh values come from: the part's own list (in order or reversed) or another part's list of the same length
+                src = "own"
+                if rng.random() < 0.35:
+                    cands = [(l2, p2) for l2, ll in enumerate(m["lods"]) for p2, m2 in enumerate(ll) if (l2, p2) != (li, pi) and len(m2["submeshes"]) == nsub]
+                    if nsub >= 2 and (not cands or rng.random() < 0.5):
+                        src = "rev"
+                    elif cands:
+                        src = "tpl=%d,%d" % rng.choice(cands)
+                ctx.stats.classes["replace-submesh-values:" + src.split("=")[0]] += 1
+                cmds.append((li, pi, vf, xf, ";".join(subspec), src))
                 size_changing |= nv != old
             # start indices of the model follow the supplied sub-mesh offsets
             st = 0
@@ -349,8 +360,8 @@ def history_case(ctx, rng, P):
                 me["_start_index"] = st
                 st += len(me["indices"])
             bad_call = False
-            for (li_, pi, vf, xf, ss) in cmds:
-                rr = ctx.call("mdl.replace", h, li_, pi, vf, xf, ss, input_bytes=os.path.getsize(vf) + len(data))
+            for (li_, pi, vf, xf, ss, src) in cmds:
+                rr = ctx.call("mdl.replace", h, li_, pi, vf, xf, ss, *([src] if src != "own" else []), input_bytes=os.path.getsize(vf) + len(data))
                 if not ctx.check_mon(rr, os.path.getsize(vf) + len(data), residual=False, files=[f]) or not rr.ok:
                     bad_call = True
                     break
